@@ -1,9 +1,9 @@
 SPECIFICATION Spec
 CONSTANTS
-  Procs = {1, 2, 3, 4}
-  MaxN = 12
-  Menu <- CoreMenu
+  Procs = {1, 2}
+  MaxN = 8
+  Menu <- FullMenu
   InitTrees <- Trees
-  Mutant = "none"
+  Mutant = "delete_empty_check_unlocked"
 INVARIANTS Refines PrefixFreeAbs NoRace Exclusive NoPhantom
 PROPERTIES Terminates
